@@ -167,7 +167,7 @@ mod added_length {
         system: uom::si;
         quantity: uom::si::length;
 
-        @smoot: 1.702; "smoot", "smoot", "smoots";
+        @vsmoot: 1.702; "vfsm", "verification smoot", "verification smoots";
         @beard_second: 5.0_E-9; "bs", "beard-second", "beard-seconds";
     }
 }
@@ -458,7 +458,7 @@ fn run_text<W: Write>(cx: &mut Cx<W>) {
             writeln!(cx.out, "parse f64 {} usr.{} {} {} {} {} {}", $bname, stringify!($module), pows, hex_str(input), numpart, numparse, res).unwrap();
         }};
     }
-    for s in ["1 sp", "2.5 cubits", "3 ⅓sp", "1 third of a span", "7 thirds of a span ", "1  lea", "1 m", "1sp", "x sp", "", " ", "1 \u{a0}hr\u{3000}", "1 smoot"] {
+    for s in ["1 sp", "2.5 cubits", "3 ⅓sp", "1 third of a span", "7 thirds of a span ", "1  lea", "1 m", "1sp", "x sp", "", " ", "1 \u{a0}hr\u{3000}", "1 vfsm"] {
         p!(d64x, "usr-default", extent, Extent, s);
         p!(a64, "usr-alt", extent, Extent, s);
     }
@@ -468,8 +468,8 @@ fn run_text<W: Write>(cx: &mut Cx<W>) {
     }
     // added units are absent from the registry and from parsing (as documented)
     let names: Vec<String> = uom::si::length::units().map(|u| format!("{:?}", u)).collect();
-    writeln!(cx.out, "absent length smoot registry={} parse={}", names.iter().any(|n| n.starts_with("smoot")) as u8,
-        "1 smoot".parse::<uom::si::f64::Length>().is_ok() as u8).unwrap();
+    writeln!(cx.out, "absent length vsmoot registry={} parse={}", names.iter().any(|n| n.starts_with("vsmoot")) as u8,
+        "1 vfsm".parse::<uom::si::f64::Length>().is_ok() as u8).unwrap();
     writeln!(cx.out, "absent length beard_second registry={} parse={}", names.iter().any(|n| n.starts_with("beard")) as u8,
         "1 bs".parse::<uom::si::f64::Length>().is_ok() as u8).unwrap();
     let tn: Vec<String> = uom::si::thermodynamic_temperature::units().map(|u| format!("{:?}", u)).collect();
@@ -497,11 +497,11 @@ fn run_added<W: Write>(cx: &mut Cx<W>) {
         }};
     }
     use uom::si::{length as l, thermodynamic_temperature as tt, velocity as vel, energy as en, thermal_conductivity as tc};
-    c!(f64, uom::si::f64::Length, l::Dimension, uom::si::SI<f64>, "si", "added.length", added_length::smoot, "smoot");
+    c!(f64, uom::si::f64::Length, l::Dimension, uom::si::SI<f64>, "si", "added.length", added_length::vsmoot, "vsmoot");
     c!(f64, uom::si::f64::Length, l::Dimension, uom::si::SI<f64>, "si", "added.length", added_length::beard_second, "beard_second");
-    c!(f32, uom::si::f32::Length, l::Dimension, uom::si::SI<f32>, "si", "added.length", added_length::smoot, "smoot");
+    c!(f32, uom::si::f32::Length, l::Dimension, uom::si::SI<f32>, "si", "added.length", added_length::vsmoot, "vsmoot");
     c!(f64, uom::si::f64::ThermodynamicTemperature, tt::Dimension, uom::si::SI<f64>, "si", "added.thermodynamic_temperature", added_temperature::degree_newton, "degree_newton");
-    c!(f64, isq_a::Length, l::Dimension, isq_a::Units, "isq_a", "added.length", added_length::smoot, "smoot");
+    c!(f64, isq_a::Length, l::Dimension, isq_a::Units, "isq_a", "added.length", added_length::vsmoot, "vsmoot");
     c!(f64, isq_a::ThermodynamicTemperature, tt::Dimension, isq_a::Units, "isq_a", "added.thermodynamic_temperature", added_temperature::degree_newton, "degree_newton");
     c!(f32, isq_c::ThermodynamicTemperature, tt::Dimension, isq_c::Units, "isq_c", "added.thermodynamic_temperature", added_temperature::degree_newton, "degree_newton");
     // built-in units through the six ISQ! aliases
@@ -536,9 +536,9 @@ fn run_added<W: Write>(cx: &mut Cx<W>) {
             }
         }};
     }
-    fadded!(uom::si::f64::Length, l::Dimension, uom::si::SI<f64>, "si", "added.length", 0, added_length::smoot, added_length::smoot, [1.702f64, 3.404, 0.0, 10.0]);
+    fadded!(uom::si::f64::Length, l::Dimension, uom::si::SI<f64>, "si", "added.length", 0, added_length::vsmoot, added_length::vsmoot, [1.702f64, 3.404, 0.0, 10.0]);
     fadded!(uom::si::f64::Length, l::Dimension, uom::si::SI<f64>, "si", "added.length", 1, added_length::beard_second, added_length::beard_second, [5.0e-9f64, 1.0]);
-    fadded!(isq_a::Length, l::Dimension, isq_a::Units, "isq_a", "added.length", 0, added_length::smoot, added_length::smoot, [1.702e-3f64, 2.0]);
+    fadded!(isq_a::Length, l::Dimension, isq_a::Units, "isq_a", "added.length", 0, added_length::vsmoot, added_length::vsmoot, [1.702e-3f64, 2.0]);
     fadded!(uom::si::f64::ThermodynamicTemperature, tt::Dimension, uom::si::SI<f64>, "si", "added.thermodynamic_temperature", 0, added_temperature::degree_newton,
         added_temperature::degree_newton, [273.15f64, 276.18030303030304, 300.0]);
     // the tuple is applied in order: base-unit abbreviations of a Debug-printed quantity
@@ -580,7 +580,7 @@ fn run_reg<W: Write>(cx: &mut Cx<W>) {
                 <$N as Conversion<f32>>::coefficient().hex(), <$N as Conversion<f32>>::constant(ConstantOp::Add).hex(), <$N as Conversion<f32>>::constant(ConstantOp::Sub).hex()).unwrap();
         };
     }
-    added!("length", 0, added_length::smoot, "smoot");
+    added!("length", 0, added_length::vsmoot, "vsmoot");
     added!("length", 1, added_length::beard_second, "beard_second");
     added!("thermodynamic_temperature", 0, added_temperature::degree_newton, "degree_newton");
 }
